@@ -154,6 +154,13 @@ def run(ctx):
         for nm, e in def_facts(fsb[swap[0].id]).items():
             if unparse(e) == "self._batch_reqs":
                 local = nm
+    # ... or a copy of it under another name (`requests = taken`), both bound once
+    locals_ = {local} if local else set()
+    for _ in range(2):
+        for x in walk_body_shallow(sb.body):
+            if isinstance(x, ast.Assign) and len(x.targets) == 1 and isinstance(x.targets[0], ast.Name) and isinstance(x.value, ast.Name) and x.value.id in locals_:
+                if sum(1 for y in walk_body_shallow(sb.body) if isinstance(y, ast.Name) and isinstance(y.ctx, ast.Store) and y.id in (x.targets[0].id, x.value.id)) == 2:
+                    locals_.add(x.targets[0].id)
     # every partition lookup is made while iterating that local, in order: a `for` over it or a comprehension over it
     lookups = [c for c in ast.walk(sb.node) if isinstance(c, ast.Call) and call_name(c) == "_next_partition"]
     parents = {}
@@ -166,10 +173,10 @@ def run(ctx):
         holder = None
         while x in parents and holder is None:
             x = parents[x]
-            if isinstance(x, ast.For) and unparse(x.iter) == local and not any(isinstance(y, (ast.Break, ast.Continue)) for y in ast.walk(x)):
+            if isinstance(x, ast.For) and unparse(x.iter) in locals_ and not any(isinstance(y, (ast.Break, ast.Continue)) for y in ast.walk(x)):
                 holder = x
             elif isinstance(x, (ast.ListComp, ast.GeneratorExp)) and len(x.generators) == 1 and not x.generators[0].ifs and unparse(
-                    x.generators[0].iter) == local:
+                    x.generators[0].iter) in locals_:
                 holder = x
         tv = holder.target if isinstance(holder, ast.For) else (holder.generators[0].target if holder is not None else None)
         if holder is not None and isinstance(tv, ast.Name) and [unparse(a) for a in c.args] == ["%s.topic" % tv.id, "%s.key" % tv.id]:
@@ -177,7 +184,7 @@ def run(ctx):
     if len(lookups) != 1:
         loops = []
     arg_ok = bool(idx_send) and len(regs[idx_send[0]]["call"].args) >= 2 and unparse(
-        regs[idx_send[0]]["call"].args[1]) == local
+        regs[idx_send[0]]["call"].args[1]) in locals_
     r.check(local is not None and len(loops) == 1 and arg_ok, "%s#lookup-order" % sb.qname,
             "partition lookups are not built by iterating the swapped-out queue that is handed to the send stage",
             where(sb, st), facts=["local=%s" % local])
